@@ -222,7 +222,7 @@ void harness(void)
 def extra(info):
     from checks import c15
     # the encoder's bytes reach the containers unmodified and in order: the stream's write/read contract (C15)
-    stream = [core.borrow(j, 'C15', 'C04') for j in c15.jobs(1, 600) if j.name.split('UncompressedFile_')[-1] in ('read', 'nextLogContainer')]
+    stream = [core.borrow(j, 'C15', 'C04') for j in c15.jobs(1, 600) if j.name.split('UncompressedFile_')[-1] in ('read', 'nextLogContainer', 'setters_accessors_predicates')]
     stream += [core.borrow(j, 'C15', 'C04') for j in c15.jobs(2, 600) if j.name.split('UncompressedFile_')[-1] == 'write']     # 2 held containers: a write that crosses a boundary
     return [stats_job(info), container_write_job(info), compressed_file_job(info)] + compress_jobs(info) + stream
 
